@@ -118,6 +118,11 @@ def grammar(tier: str = "quick") -> List[V]:
         if tier == "thorough":
             out.append(dct(f"D2_{n}", (K("x"), a), (K("y"), b)))
             out.append(st_(f"S2_{n}", a, b) if False else tup(f"T2_{n}", a, b))
+    # elements of ONE Python class whose inferred types differ (class objects are all instances of `type`)
+    out.append(lst("Lclasses", klass("Shape"), klass("Circle")))
+    out.append(lst("Lmix_classes", K(1), klass("Shape"), K("s"), klass("Circle")))
+    out.append(dct("Dclasses", (K(1), klass("Shape")), (K(2), klass("Circle"))))
+    out.append(ddct("DDclasses", (K("a"), klass("Shape")), (K("b"), klass("Circle"))))
     out.append(lst("Lrows", dct("r1", (K("a"), K(1))), dct("r2", (K("a"), K(2)), (K("b"), K("s")))))
     out.append(lst("Lempties", dct("x0"), dct("y0")))
     out.append(lst("Lmixed", dct("m0"), dct("m1", (K("a"), K(1)))))
